@@ -353,7 +353,44 @@ def k_member(run, case):
                   "is_sim3 accepted a wrong bottom row", Pb=Pb)
 
 
-KINDS = {"explog": k_explog, "hatvee": k_hatvee, "se3": k_se3, "sim3": k_sim3,
+def k_threads(run, case):
+    """
+    The helpers are pure functions: called from several threads at once (each thread on its own
+    matrices) every call returns what it returns when called alone.
+    """
+    from vmon import threads
+    from evo.core import lie_algebra as L  # the functions themselves (no recording proxy in between)
+    rng = run.rng(case)
+    m = int(rng.integers(30, 100))
+
+    def make_job(seed):
+        r = np.random.default_rng(seed)
+        Rs = [gen.rand_rot(r) for _ in range(m + 1)]
+        Ps = [rm.se3(Rk, r.normal(size=3) * 10.0**r.uniform(-3, 3)) for Rk in Rs]
+        Ss = [L.sim3(Rk, r.normal(size=3), float(10.0**r.uniform(-2, 2))) for Rk in Rs[:8]]
+        vs = [r.normal(size=3) * r.uniform(0, 1) for _ in range(m)]
+
+        def job():
+            out = []
+            for i in range(m):
+                out.append(L.relative_so3(Rs[i], Rs[i + 1]))
+                out.append(L.relative_se3(Ps[i], Ps[i + 1]))
+                out.append(L.se3_inverse(Ps[i]))
+                out.append(L.so3_log_angle(Rs[i].T @ Rs[i + 1]))
+                out.append(L.so3_exp(vs[i]))
+                out.append(bool(L.is_so3(Rs[i])) and bool(L.is_se3(Ps[i])))
+            for S in Ss:
+                out.append(L.sim3_inverse(S))
+                out.append(L.sim3_scale(S))
+            return out
+        return job
+
+    jobs = [make_job(int(rng.integers(2**31))) for _ in range(4)]
+    run.seen(case, core.digest("threads", case["rs"]), cls=["concurrent use: 4 threads"], sample={"calls_per_thread": 6 * m})
+    threads.check(run, case, jobs, "Lie helpers", "threads:lie-helpers-not-reentrant")
+
+
+KINDS = {"threads": k_threads, "explog": k_explog, "hatvee": k_hatvee, "se3": k_se3, "sim3": k_sim3,
          "metric": k_metric, "member": k_member}
 
 
@@ -370,7 +407,9 @@ def main(run):
         nk = n // 3 if kind == "hatvee" else n
         for i in run.mine(nk):
             KINDS[kind](run, run.case(kind, i))
-    run.need("exp(log(R))==R", "log(exp(v))==v", "log(exp(v))~v at pi", "P*inv(P)==I",
+    for i in run.mine({"quick": 16, "thorough": 300}[run.tier]):
+        k_threads(run, run.case("threads", i))
+    run.need("concurrent rounds: Lie helpers", "exp(log(R))==R", "log(exp(v))==v", "log(exp(v))~v at pi", "P*inv(P)==I",
              "rel(A,B)==inv(A)B", "S*inv(S)==I", "sim3 scale recovered", "triangle inequality",
              "left invariance", "is_se3 rejects bottom row", "is_so3 rejects reflection",
              "vee(hat(v))==v")
